@@ -11,6 +11,7 @@ no such event either, the loop stops itself ("quiescence").
 import asyncio
 import collections
 import heapq
+import math
 import socket as _socket
 from asyncio import events
 
@@ -175,6 +176,14 @@ class SimLoop(asyncio.BaseEventLoop):
         return fut
 
     # ---- the iteration --------------------------------------------------
+    def _end_time(self):
+        # timers with _when < end_time are due; at huge virtual times the clock
+        # resolution falls below one ulp, so make sure "due now" stays true
+        e = self._now + self._clock_resolution
+        if e == self._now:
+            e = math.nextafter(self._now, math.inf)
+        return e
+
     def _poll_io(self):
         net = self.net
         if net is None or not (self._sim_readers or self._sim_writers):
@@ -253,7 +262,7 @@ class SimLoop(asyncio.BaseEventLoop):
                 handle = heapq.heappop(sched)
                 handle._scheduled = False
             next_t = sched[0]._when if sched else None
-            if next_t is not None and next_t < self._now + self._clock_resolution:
+            if next_t is not None and next_t < self._end_time():
                 break
             if self.block_hook is not None:
                 # other threads may produce work; returns True if they did
@@ -283,6 +292,9 @@ class SimLoop(asyncio.BaseEventLoop):
                 break
             self._now = new_now
             self.clock_jumps += 1
+            if self.clock_jumps > 50 * self.max_iters:
+                self.step_capped = True
+                raise SimStepCap(self.iterations)
             self.log.ev("t", new_now)
 
         cost = tapes.draw("cost")
@@ -293,7 +305,7 @@ class SimLoop(asyncio.BaseEventLoop):
             self._ready.append(h)
             self.io_dispatches += 1
 
-        end_time = self._now + self._clock_resolution
+        end_time = self._end_time()
         while sched:
             handle = sched[0]
             if handle._when >= end_time:
